@@ -146,6 +146,9 @@ func (c *otApplyContext) applyGPOS(table tables.GPOSLookup) bool {
 		case tables.SinglePosData1:
 			c.applyGPOSValueRecord(inner.ValueFormat, inner.ValueRecord, glyphPos)
 		case tables.SinglePosData2:
+			if index >= len(inner.ValueRecords) { // a range coverage may yield any index
+				return false
+			}
 			c.applyGPOSValueRecord(inner.ValueFormat, inner.ValueRecords[index], glyphPos)
 		}
 		buffer.idx++
@@ -288,6 +291,9 @@ func (c *otApplyContext) applyGPOSPair1(inner tables.PairPosData1, index int) bo
 	buffer := c.buffer
 	skippyIter := &c.iterInput
 	pos := skippyIter.idx
+	if index >= len(inner.PairSets) { // a range coverage may yield any index
+		return false
+	}
 	set := inner.PairSets[index]
 	record, ok := set.FindGlyph(gID(buffer.Info[skippyIter.idx].Glyph))
 	if !ok {
@@ -348,6 +354,9 @@ func (c *otApplyContext) applyGPOSPair2(inner tables.PairPosData2) bool {
 func (c *otApplyContext) applyGPOSCursive(data tables.CursivePos, covIndex int) bool {
 	buffer := c.buffer
 
+	if covIndex >= len(data.EntryExits) { // a range coverage may yield any index
+		return false
+	}
 	thisRecord := data.EntryExits[covIndex]
 	if thisRecord.EntryAnchor == nil {
 		return false
@@ -361,7 +370,7 @@ func (c *otApplyContext) applyGPOSCursive(data tables.CursivePos, covIndex int) 
 	}
 
 	prevIndex, ok := data.Cov().Index(gID(buffer.Info[skippyIter.idx].Glyph))
-	if !ok {
+	if !ok || prevIndex >= len(data.EntryExits) {
 		buffer.unsafeToConcatFromOutbuffer(skippyIter.idx, buffer.idx+1)
 		return false
 	}
@@ -501,6 +510,9 @@ func (c *otApplyContext) getAnchor(anchor tables.Anchor, glyph GID) (x, y float3
 
 func (c *otApplyContext) applyGPOSMarks(marks tables.MarkArray, markIndex, glyphIndex int, anchors tables.AnchorMatrix, glyphPos int) bool {
 	buffer := c.buffer
+	if markIndex >= len(marks.MarkRecords) || markIndex >= len(marks.MarkAnchors) { // a range coverage may yield any index
+		return false
+	}
 	markClass := marks.MarkRecords[markIndex].MarkClass
 	markAnchor := marks.MarkAnchors[markIndex]
 
@@ -609,7 +621,7 @@ func (c *otApplyContext) applyGPOSMarkToLigature(data tables.MarkLigPos, markInd
 
 	idx := c.lastBase
 	ligIndex, ok := data.LigatureCoverage.Index(gID(buffer.Info[idx].Glyph))
-	if !ok {
+	if !ok || ligIndex >= len(data.LigatureArray.LigatureAttachs) {
 		c.buffer.unsafeToConcatFromOutbuffer(idx, c.buffer.idx+1)
 		return false
 	}
